@@ -186,8 +186,8 @@ where
             if len >= 253 {
                 return Err(PushError::LongName);
             }
-            self.head = Some(len);
             self._append_slice(&[0, ch])?;
+            self.head = Some(len);
         }
         Ok(())
     }
@@ -237,8 +237,14 @@ where
             if self.len() + slice.len() > 254 {
                 return Err(PushError::LongName);
             }
-            self.head = Some(self.len());
-            self._append_slice(&[0])?;
+            // Append the length octet and the content in one go so that a
+            // buffer that is too short cannot keep half of it.
+            let len = self.len();
+            let mut buf = [0u8; Label::MAX_LEN + 1];
+            buf[1..=slice.len()].copy_from_slice(slice);
+            self._append_slice(&buf[..=slice.len()])?;
+            self.head = Some(len);
+            return Ok(());
         }
         self._append_slice(slice)?;
         Ok(())
@@ -285,18 +291,22 @@ where
         &mut self,
         value: u8,
     ) -> Result<(), PushError> {
-        self.end_label();
+        let mut label = [0u8; 4];
+        let mut len = 0;
         let hecto = value / 100;
         if hecto > 0 {
-            self.push(hecto + b'0')?;
+            len += 1;
+            label[len] = hecto + b'0';
         }
         let deka = (value / 10) % 10;
         if hecto > 0 || deka > 0 {
-            self.push(deka + b'0')?;
+            len += 1;
+            label[len] = deka + b'0';
         }
-        self.push(value % 10 + b'0')?;
-        self.end_label();
-        Ok(())
+        len += 1;
+        label[len] = value % 10 + b'0';
+        label[0] = len as u8;
+        self.append_complete_label(&label[..=len])
     }
 
     /// Appends a label with the hex digit.
@@ -332,10 +342,22 @@ where
             }
         }
 
+        self.append_complete_label(&[1, hex_digit(nibble)])
+    }
+
+    /// Appends a short label given in wire format, i.e., with its length.
+    ///
+    /// Ends a label under construction first. The label is appended in one
+    /// go: if it doesn't fit, nothing of it is kept.
+    fn append_complete_label(
+        &mut self,
+        label: &[u8],
+    ) -> Result<(), PushError> {
         self.end_label();
-        self.push(hex_digit(nibble))?;
-        self.end_label();
-        Ok(())
+        if self.len() + label.len() > 254 {
+            return Err(PushError::LongName);
+        }
+        self._append_slice(label)
     }
 
     /// Appends a relative domain name.
@@ -358,8 +380,13 @@ where
             return Err(PushNameError::LongName);
         }
         for label in name.iter_labels() {
-            label
-                .compose(&mut self.builder)
+            // Length octet and content in one go, see `append_slice`.
+            let mut buf = [0u8; Label::MAX_LEN + 1];
+            let len = label.len();
+            buf[0] = len as u8;
+            buf[1..=len].copy_from_slice(label.as_slice());
+            self.builder
+                .append_slice(&buf[..=len])
                 .map_err(|_| PushNameError::ShortBuf)?;
         }
         Ok(())
